@@ -14,7 +14,7 @@ from ..coqrun import cstr, cZ, cnat, cbool, clist, cpair, copt
 from ..tok import S
 
 PID = "C15"
-COQ_HEADER = ("From stdpp Require Import gmap strings.\nFrom SK Require Import lib.Tok model.C15_Model model.C15_Ext.\n"
+COQ_HEADER = ("From stdpp Require Import gmap strings.\nFrom SK Require Import lib.Tok model.C15_Model model.C15_Ext model.C15_View.\n"
               "Local Open Scope string_scope.\n")
 SHARD = 150
 RULE = ("operation histories over k networks. Old language (add generated/explicit id, remove reaction, remove species +/- prune, "
@@ -24,19 +24,24 @@ RULE = ("operation histories over k networks. Old language (add generated/explic
         "species_list, get_edge + HyperEdge views, neighbors, paths, incidence_matrix sparse/dense + alias, get_mol; name overlaps "
         "species<->reaction ids, falsy labels, call styles positional/keyword/default): every op once after a preamble, "
         "query->edit->query triples, sampled pairs, copy-then-edit, random histories, one >=100-reaction history. "
+        "View language (kinds h3-*, round 4): the extended language plus backend objects (_CRNGraphBackend and its three public subclasses, all "
+        "option combinations) that cache a graph view of a network: every store op between two rounds of view accesses, sampled pairs, random "
+        "histories, backends on empty networks / re-bound slots, in-place coefficient edits. "
         "A case is non-trivial when at least two ops succeed and a remove/merge/copy op occurs; distinct = distinct op lists")
 EXHAUSTIVE = {"quick": False, "thorough": False}
 EXPLANATION = ("Theorems: invariant (indices exact, species = occurring (+kept), mol within species, ids unique, order list = key set) "
                "for every reachable world of the old and of the extended history language; frame/independence of networks and of caller-held "
                "side objects; queries never change the state; refinement to the id->reaction spec; exact label semantics (labels only for present "
                "species, never for reaction ids; last entry wins; no truthiness test); RXNSide normalisation = positive multiset of positive counts; "
-               "incidence sparse and dense = products - reactants; neighbors exact; paths sound, complete, ordered; whole-history statement of the first clause. "
+               "incidence sparse and dense = products - reactants; neighbors exact; paths sound, complete, ordered; whole-history statement of the first clause; "
+               "cached graph views (version count of the store + cache of the backend as a state machine): after any history of store-method calls the view handed "
+               "out was built from a store that agrees with the current one on everything the export reads (refuted for in-place coefficient edits through a returned edge: known finding). "
                "Correspondence: model state (and every answer handed back) compared with the implementation after every operation.")
 TRUSTED_BASE = [
     "Coq 8.16.1 kernel + vm_compute (no native_compute)",
     "std++ 1.8.0 gmap/gset (axiom-free)",
-    "hand-written models coq/model/C15_Model.v + coq/model/C15_Ext.v tied to synkit/CRN/Hypergraph/{hypergraph,rxn,hyperedge}.py by the per-run correspondence",
-    "harness encoders harness/props/C15.py + harness/gen/c15_ext.py (op list -> Gallina literal; attributes/answers -> tok; str()/int() coercion of labels and counts; json.dumps of molecule labels)",
+    "hand-written models coq/model/C15_Model.v + coq/model/C15_Ext.v + coq/model/C15_View.v tied to synkit/CRN/Hypergraph/{hypergraph,rxn,hyperedge,backend}.py by the per-run correspondence",
+    "harness encoders harness/props/C15.py + harness/gen/c15_ext.py + harness/gen/c15_view.py (op list -> Gallina literal; attributes/answers -> tok; str()/int() coercion of labels and counts; json.dumps of molecule labels)",
     "CPython dict/set semantics; copy.deepcopy",
 ]
 ASSUMPTIONS = ["species labels and ids are printable ASCII strings", "molecule labels are strings",
@@ -95,6 +100,9 @@ def _apply(nets, op):
 
 
 def impl(case):
+    if case.get("kind", "").startswith("h3"):
+        from ..gen import c15_view
+        return c15_view.impl3(case)
     if case.get("kind", "").startswith("h2"):
         from ..gen import c15_ext
         return c15_ext.impl2(case)
@@ -135,6 +143,9 @@ def _op(op):
 
 
 def coq_case(case):
+    if case.get("kind", "").startswith("h3"):
+        from ..gen import c15_view
+        return c15_view.coq_case3(case)
     if case.get("kind", "").startswith("h2"):
         from ..gen import c15_ext
         return c15_ext.coq_case2(case)
@@ -192,6 +203,9 @@ def _check_net(H, spec, kept, where):
 
 
 def oracle(case):
+    if case.get("kind", "").startswith("h3"):
+        from ..gen import c15_view
+        return c15_view.oracle3(case)
     if case.get("kind", "").startswith("h2"):
         from ..gen import c15_ext
         return c15_ext.oracle2(case)
@@ -285,7 +299,7 @@ def shrink(case, fl):
                     break
             except Exception:
                 pass
-    return dict(case, ops=ops, skip=0, lite=False, name=case.get("name", "") + "(shrunk)") if case.get("kind", "").startswith("h2") \
+    return dict(case, ops=ops, skip=0, lite=False, name=case.get("name", "") + "(shrunk)") if case.get("kind", "").startswith(("h2", "h3")) \
         else dict(case, ops=ops, name=case.get("name", "") + "(shrunk)")
 
 
@@ -406,6 +420,8 @@ def gen_cases(tier, rng):
         cases.append(dict(kind="random", n=3, ops=_rand_hist(rng, maxlen, rng.choice([3, 4, 7]), 3)))
     from ..gen import c15_ext
     cases += c15_ext.gen_cases2(tier, rng)
+    from ..gen import c15_view
+    cases += c15_view.gen_cases3(tier, rng)
     return cases
 
 LEVEL_TEXT = ("Machine-checked proof (Coq) over an executable model of CRNHyperGraph: the store invariant (indices exact, species = occurring "
@@ -415,7 +431,8 @@ LEVEL_TEXT = ("Machine-checked proof (Coq) over an executable model of CRNHyperG
               "id->reaction specification prescribes; incidence (sparse and dense) = products - reactants. Round 3: the same for the extended "
               "history language covering the whole public surface (all input forms, RXNSide objects passed in, duck-typed merge, coefficient "
               "edits, every query): queries never change the state, labels are stored exactly for present species and never for reaction ids, "
-              "neighbors exact, paths sound, complete and ordered. The model is tied to the Python code by comparing the complete public state and every answer after "
+              "neighbors exact, paths sound, complete and ordered. Round 4: the cached graph views of a network (backend objects holding a reference to "
+              "the store) as a state machine over the store's version count: a view handed out after any history of store-method calls is current. The model is tied to the Python code by comparing the complete public state and every answer after "
               "every operation of thousands of generated histories on every run.")
 LEVEL_NOTE = ("Trusted: Coq kernel + vm_compute, std++; the hand-written model and the harness encoders; CPython dict/set/deepcopy semantics. "
               "Tested only: __repr__, numpy construction of the dense matrix; parse_rxns / add_rxn_from_str belong to C16.")
